@@ -160,6 +160,15 @@ CLAIMS = {
          "is unchanged: the model is pure, the implementation side asserts it in-process. Correspondence: quantised and plain quantities, "
          "ratio lists of length 1-8 (numbers and quantities), both flags, all 8 modes.",
          "6 C06", NOTE),
+ "C18": ("Lean 4 proof (digit-list induction: the text form of every Decimal / Fraction amount parses back to its exact value; str(q) splits back into amount and symbol) + differential correspondence",
+         "Theorems (Props/C18.lean, Proofs/Text.lean): the digits printed for a natural number read back as that number; str of a Decimal amount with "
+         "internal value v and ANY precision p parses back to exactly v/10^p; str of a Fraction amount parses back to exactly that rational; "
+         "str(q) = amount, one blank, symbol splits back into exactly the amount's value and the symbol (symbols with inner blanks included); "
+         "parsing through the generic factory or the own type re-creates the quantity; malformed amounts are QuantityError; a tab is not a "
+         "separator; the accepted literal forms. Correspondence: every amount kind incl. huge/tiny/subnormal floats (exact binary value), all "
+         "predefined symbols (non-ASCII, compound), both factories, explicit other unit == parse-then-convert, malformed stream. Partial: "
+         "Python's wider numeric literal grammar (underscores, non-ASCII digits, inner whitespace) is outside the modelled subset.",
+         "6 C18", NOTE),
 }
 
 def main():
